@@ -86,6 +86,17 @@ TABLE = [
     (("C05",), "jxl_render::image::composite_preprocess", "reads", "color_channels", "seed-C05l",
      "the bit depths zipped with the grid's buffers are laid out by the grid's own colour-channel count (a grey image coded as three "
      "channels has one colour buffer by then), not by the number of channels the frame was coded with"),
+    (("C11",), "jxl_frame::Frame::try_parse_lf_global", "calls", "is_partial", "D57",
+     "in a single-entry frame the start of LfGroup is learned from the end of LfGlobal: only from a complete parse (a partial global "
+     "Modular image stops early)"),
+    (("C11",), "jxl_frame::Frame::try_parse_lf_group", "reads", "partial", "D57",
+     "the start of HfGlobal is learned from the end of LfGroup: only from a complete parse"),
+    (("C11",), "jxl_frame::Frame::try_parse_hf_global", "compare", "offset == 0", "D57",
+     "while the offset of HfGlobal is unknown the section is reported as not available yet instead of being parsed at offset 0"),
+    (("C09", "C10"), "jxl_oxide::JxlImageBuilder::read", "calls", "ContainerParser::kind", "D58",
+     "read() keeps pulling from the reader after the last frame when the file is a container: boxes may follow the codestream"),
+    (("C11", "C05"), "jxl_render::RenderContext::render_loading_frame", "reads", "frame_deps", "D60",
+     "a frame that is already complete is rendered with the reference / LF slots recorded when it was loaded, not with the current ones"),
     (("C06",), "jxl_render::util::image_region_to_frame", "reads", "frame_type", "seed-C06h",
      "a ReferenceOnly frame is a patch / blending source whatever its save_before_ct bit says (the bit is only defaulted to true when "
      "absent), and reset_cache keeps its render handle across region changes: it has to be rendered in full"),
